@@ -72,6 +72,35 @@ Theorem C03_all_for_negative_n : forall ds uf f n s l,
 Proof. exact Take.take_negative. Qed.
 Print Assumptions C03_all_for_negative_n.
 
+(* the code itself: takeStream as translated from micro/stream.go on every run (gen/StreamGen.v: statement by statement,
+   CarCdr as one step of the stream model, a nil dereference or a nil state in the result as Panic) IS `take`, for every
+   count, stream and fuel; the count clauses hold of it and it never panics *)
+Require GMK.GoLite GMK.GoLiteS GMK.gen.StreamGen GMK.StreamGenSpec.
+Theorem C03_code_take_is_model : forall ds uf f n s,
+  StreamGen.gs_takeStream f ds uf n s = StreamGenSpec.of_optS (take ds uf f n s).
+Proof. exact StreamGenSpec.gs_takeStream_spec. Qed.
+Print Assumptions C03_code_take_is_model.
+
+Theorem C03_code_take_never_panics : forall ds uf f n s, StreamGen.gs_takeStream f ds uf n s <> GoLite.Panic.
+Proof. exact StreamGenSpec.gs_takeStream_never_panics. Qed.
+Print Assumptions C03_code_take_never_panics.
+
+Theorem C03_code_at_most_n : forall ds uf f n s l,
+  StreamGen.gs_takeStream f ds uf n s = GoLite.Ret l -> (0 <= n)%Z -> (length l <= Z.to_nat n)%nat.
+Proof. exact StreamGenSpec.gs_take_at_most_n. Qed.
+Print Assumptions C03_code_at_most_n.
+
+Theorem C03_code_fewer_only_if_exhausted : forall ds uf f n s l,
+  StreamGen.gs_takeStream f ds uf n s = GoLite.Ret l -> (0 <= n)%Z -> (length l < Z.to_nat n)%nat ->
+  Finite ds uf s /\ forall x, InStream ds uf x s -> In x l.
+Proof. exact StreamGenSpec.gs_take_fewer_only_if_exhausted. Qed.
+Print Assumptions C03_code_fewer_only_if_exhausted.
+
+Theorem C03_code_all_for_negative_n : forall ds uf f n s l,
+  (n < 0)%Z -> StreamGen.gs_takeStream f ds uf n s = GoLite.Ret l -> Finite ds uf s /\ forall x, InStream ds uf x s <-> In x l.
+Proof. exact StreamGenSpec.gs_take_negative. Qed.
+Print Assumptions C03_code_all_for_negative_n.
+
 Theorem C03_finite_returns : forall ds uf s, Finite ds uf s -> ~ ReachErr ds uf s ->
   forall n, exists f l, take ds uf f n s = Some l.
 Proof. exact Take.take_finite_total. Qed.
